@@ -80,6 +80,11 @@ def oracle_c17(line, impl, model_kv, impl_kv=None, model=None):
             if impl != want: return "to_insn_vec differs from the slots"
     elif t[0] == "bld":
         if f.get("b") != f.get("e"): return "builder bytes differ from the instruction encoder's"
+        # the instruction a constructor denotes is fixed by its arguments (class | mode / source | size / operation, as the opcode constants of
+        # ebpf.rs compose them): the model's builder is proved to emit the encoder's bytes for that instruction (C17_builder)
+        mb = fields(model).get("b") if model else None
+        if mb is not None and f.get("b") is not None and f.get("b") != mb:
+            return "the builder emits %s for a constructor call that denotes the instruction the encoder emits as %s" % (f.get("b"), mb)
         if model_kv.get("canon") == "1" and f.get("a") not in (None, "skip") and f.get("a") != f.get("b"):
             return "the assembler gives '%s' for the text of an instruction the builder encodes as %s" % (f.get("a"), f.get("b"))
     return None
